@@ -93,6 +93,8 @@ typedef struct console {
 
 	const console_cmd_t *cmd;
 	pt_t pt;
+
+	uint16_t evalp; //!< console_eval()'s position in the text it injects
 } console_t;
 
 /*!
